@@ -179,8 +179,4 @@ def search(ctx, mismatches):
 
 
 def replay(ctx, path):
-    import json
-    from menelaus.ensemble import election as el
-    r = json.load(open(path))
-    print(json.dumps(r, indent=1))
-    return 0
+    return core.generic_replay(ctx, path, run)
